@@ -78,6 +78,16 @@ class VSet:
         return VSet(self.members)
 
 
+class VRefMap:
+    """map from opaque refs to bool/int (a set of refs is a map to bool); symbolic, array-backed"""
+
+    def __init__(self, arr, valkind):
+        self.arr, self.valkind = arr, valkind
+
+    def copy(self):
+        return VRefMap(self.arr, self.valkind)
+
+
 class VFunc:
     """Callable value: a repo function/closure (fdef + closure env), a parameter with a spec, ..."""
 
